@@ -379,7 +379,7 @@ func ruleWriteBlockTrace(r *core.Run, p *core.Prog, want map[string]bool) {
 					fail("len-is-last-emit-count", path, fmt.Sprintf("block Len at %s is %s, not the count returned by the last emitting call at %s", p.Rel(e.node.Pos()), core.Str(ln), p.Rel(lastEmit.node.Pos())))
 				}
 				v["rawlen-is-input-length"].seen++
-				if raw == nil || !isLenOf(info, raw, dataParam) {
+				if raw == nil || !isLenOf(info, resolveLocal(info, f.Decl.Body, stripConv(info, raw)), dataParam) {
 					fail("rawlen-is-input-length", path, fmt.Sprintf("block RawLen at %s is %s, not the length of the data passed in", p.Rel(e.node.Pos()), core.Str(raw)))
 				}
 				v["encoder-type-matches-emitter"].seen++
